@@ -18,7 +18,7 @@
 (*   must not see  if exp = none,  or t > exp + SHi                        *)
 (***************************************************************************)
 EXTENDS Integers, Sequences, FiniteSets, TLC
-CONSTANTS TTLs, Ticks, MaxOps, MaxTime
+CONSTANTS TTLs, Ticks, MaxOps, MaxTime, StatusOnly    \* StatusOnly: both entities recorded from the start, only reports and ticks follow
 Ents == {"node", "wl"}
 NONE == -1  NEVER == -2  OPEN == -3     \* exp values that are not times (TLC compares integers only with integers)
 VARIABLES present, exp, val, now, hist
@@ -26,7 +26,10 @@ vars == <<present, exp, val, now, hist>>
 O(op, x, v, ttl) == [op |-> op, x |-> x, v |-> v, ttl |-> ttl]
 
 SInit == present = [x \in Ents |-> FALSE] /\ exp = [x \in Ents |-> NONE] /\ val = [x \in Ents |-> ""] /\ now = 0
-Init == SInit /\ hist = <<>>
+Init == IF StatusOnly
+        THEN /\ present = [x \in Ents |-> TRUE] /\ exp = [x \in Ents |-> NONE] /\ val = [x \in Ents |-> ""] /\ now = 0
+             /\ hist = <<O("add", "node", "", 0), O("add", "wl", "", 0)>>
+        ELSE SInit /\ hist = <<>>
 
 Accepts(x, ttl) == IF ttl > 0 THEN present[x] ELSE IF ttl = 0 THEN x = "wl" ELSE x = "node"
 Add(x) == present' = [present EXCEPT ![x] = TRUE] /\ UNCHANGED <<exp, val, now>>
@@ -44,7 +47,7 @@ Tick(d) == now' = now + d /\ UNCHANGED <<present, exp, val>>
 
 Apply(o) == CASE o.op = "add" -> Add(o.x) [] o.op = "remove" -> Remove(o.x)
               [] o.op = "report" -> Report(o.x, o.v, o.ttl) [] o.op = "tick" -> Tick(o.ttl)
-OpSpace == {O("add", x, "", 0) : x \in {y \in Ents : ~present[y]}} \cup {O("remove", x, "", 0) : x \in {y \in Ents : present[y]}}
+OpSpace == (IF StatusOnly THEN {} ELSE {O("add", x, "", 0) : x \in {y \in Ents : ~present[y]}} \cup {O("remove", x, "", 0) : x \in {y \in Ents : present[y]}})
            \cup {O("report", "node", "alive", t) : t \in TTLs \cup {-1}} \cup {O("report", "node", "alive", 0) : t \in {z \in {0} : Len(hist) > MaxOps - 3}}
            \cup {O("report", "wl", v, t) : v \in {"A", "B"}, t \in TTLs \cup {0}}
            \cup {O("tick", "", "", d) : d \in {z \in Ticks : now + z <= MaxTime}}
